@@ -1,6 +1,7 @@
 package sym
 
 import (
+	"os"
 	"fmt"
 	"go/types"
 	"regexp"
@@ -178,6 +179,9 @@ func (e *Engine) registerIntrinsics(pkgPath string) {
 			if r := recover(); r != nil {
 				if gp, ok := r.(*guestPanic); ok {
 					x.lastPanic = gp
+					if x.E.Debug {
+						fmt.Fprintln(os.Stderr, "GUEST-PANIC:", gp.msg, "at", gp.site)
+					}
 					ret = TrueT
 					return
 				}
